@@ -221,8 +221,9 @@ Amend(q, x, idx) == IF idx = <<>> THEN q ELSE Amend([q EXCEPT ![Head(idx) + 1] =
 RECURSIVE AmendDepth(_, _, _), PathOk(_, _)
 AmendDepth(a, x, path) == IF Len(path) = 1 THEN L([a.v EXCEPT ![path[1] + 1] = x])
                           ELSE L([a.v EXCEPT ![path[1] + 1] = AmendDepth(a.v[path[1] + 1], x, Tail(path))])
+\* "the number of indices must match the rank of the array": the path ends at an element that is not itself a list
 PathOk(a, path) == /\ IsList(a) /\ path[1] \in 0..(Len(a.v) - 1)
-                   /\ (Len(path) > 1 => PathOk(a.v[path[1] + 1], Tail(path)))
+                   /\ (IF Len(path) > 1 THEN PathOk(a.v[path[1] + 1], Tail(path)) ELSE ~IsList(a.v[path[1] + 1]))
 
 Len0E(a) == (IsList(a) \/ IsStr(a)) /\ Len(a.v) = 0
 
@@ -241,8 +242,11 @@ DomD(v, a, b) ==
     [] v = ":_" -> (IsList(b) \/ IsStr(b)) /\ Len(b.v) >= 1 /\
                    ((IsInt(a) /\ a.v \in 0..Len(b.v)) \/
                     (IsList(a) /\ Len(a.v) >= 1 /\ AllInts(a.v) /\ NonDecr(IntsOf(a)) /\ \A k \in 1..Len(a.v) : a.v[k].v \in 0..Len(b.v)))
-    [] v = ":^" -> ((IsInt(a) /\ a.v \in 1..6) \/ (IsList(a) /\ Len(a.v) \in 1..3 /\ AllInts(a.v) /\ \A k \in 1..Len(a.v) : a.v[k].v \in 1..3))
-                   /\ (FlatAtoms(b) \/ (IsAtom(b) /\ ~IsDict(b) /\ ~IsList(b) /\ ~IsStr(b)))
+    [] v = ":^" -> \/ ((IsInt(a) /\ a.v \in 1..6) \/ (IsList(a) /\ Len(a.v) \in 1..3 /\ AllInts(a.v) /\ \A k \in 1..Len(a.v) : a.v[k].v \in 1..3))
+                      /\ (FlatAtoms(b) \/ (IsAtom(b) /\ ~IsDict(b) /\ ~IsList(b) /\ ~IsStr(b)))
+                   \* -1 in the shape denotes half the size of the source vector (which must have an even size >= 2)
+                   \/ IsList(a) /\ Len(a.v) = 2 /\ AllInts(a.v) /\ (\A k \in 1..2 : a.v[k].v \in {-1, 1, 2, 3})
+                      /\ (\E k \in 1..2 : a.v[k].v = -1) /\ FlatAtoms(b) /\ Len(b.v) >= 2 /\ Len(b.v) % 2 = 0
     [] v = ":=" -> IsList(a) /\ Len(a.v) >= 1 /\ IsList(b) /\ Len(b.v) >= 2 /\ AllInts(Tail(b.v)) /\
                    (\A k \in 2..Len(b.v) : b.v[k].v \in 0..(Len(a.v) - 1)) /\
                    (\A k \in 1..Len(a.v) : a.v[k].t = b.v[1].t) /\ ~IsList(b.v[1]) /\ ~IsStr(b.v[1])
@@ -268,7 +272,8 @@ Dyad(v, a, b) ==
     [] v = ":+" -> Rotate(a, b)
     [] v = ":#" -> LET segs == SplitBy(Elems(b), IntsOf(a), 1) IN L([k \in 1..Len(segs) |-> Like(b, segs[k])])
     [] v = ":_" -> LET segs == CutAt(Elems(b), IntsOf(a), 0) IN L([k \in 1..Len(segs) |-> Like(b, segs[k])])
-    [] v = ":^" -> Build(IntsOf(a), IF IsList(b) THEN b.v ELSE <<b>>, 0)
+    [] v = ":^" -> Build([k \in 1..Len(IntsOf(a)) |-> IF IntsOf(a)[k] = -1 THEN Len(b.v) \div 2 ELSE IntsOf(a)[k]],
+                         IF IsList(b) THEN b.v ELSE <<b>>, 0)
     [] v = ":=" -> L(Amend(a.v, b.v[1], [k \in 1..(Len(b.v) - 1) |-> b.v[k + 1].v]))
     [] v = ":-" -> AmendDepth(a, b.v[1], [k \in 1..(Len(b.v) - 1) |-> b.v[k + 1].v])
     [] OTHER -> Err("unknown dyad")
